@@ -161,7 +161,7 @@ func runLocksetXNoTable(w *World, r *Report, rule string, extra func(fn *ssa.Fun
 func ruleAtomSection(w *World, r *Report) {
 	r.Rule("ATOM-SECTION", "in every method of a State implementation that performs both a storage mutation and a write to the fact map (directly or through a same-type callee), no release of the state lock lies on a path between the two", 4)
 	a := newLocAnchors(w)
-	e := newLocksetEngine(w, guardsStates())
+	e := newLocksetEngine(w, guardsStates(w))
 	factField := map[string]string{}
 	for n := range a.stateImp {
 		st := structOf(n)
